@@ -308,6 +308,10 @@ def apply(m, mut):
                 t[2] = str(size)
             elif arg == "beyond":
                 t[2] = str(size + 64)
+            elif arg in ("+2^31", "+2^32", "+3*2^32"):
+                # far beyond the end of the file by a power of two: a position that only wraps back to the right one in
+                # 32-bit (or 64-bit) arithmetic
+                t[2] = str(fab["off"] + {"+2^31": 2 ** 31, "+2^32": 2 ** 32, "+3*2^32": 3 * 2 ** 32}[arg])
             elif arg == "zeros":
                 t[2] = "00" + str(fab["off"])
             elif arg == "plus":
@@ -452,7 +456,7 @@ def singles(model, coords=False, textual=False):
             out.append(["index", lv, b, "third", 0])
             out.append(["index", lv, b, "delete", 0])
             out.append(["fod", lv, b, "delete", None])
-            for arg in ("+1", "-1", "mid", "eof", "beyond", "unparsable", "prev_fab", "next_fab"):
+            for arg in ("+1", "-1", "mid", "eof", "beyond", "+2^31", "+2^32", "+3*2^32", "unparsable", "prev_fab", "next_fab"):
                 out.append(["fod", lv, b, "offset", arg])
             if textual:
                 for arg in ("zeros", "plus"):
